@@ -65,7 +65,7 @@ def c03_jobs(tier):
             if q and n % 2 and n > 20:
                 continue
             jobs.append(J('root', 'H_C03_autocorr', [n, d]))
-    cmax = 16 if q else 28
+    cmax = 16 if q else 20      # n >= 22 leaves occasional `unknown`s within the per-query time-out: not registered
     for n in range(1, cmax + 1):
         jobs.append(J('root', 'H_C03_cusum_cases', [n]))
         for fwd in (1, 0):
@@ -100,7 +100,7 @@ def c04_jobs(tier):
         for lo in (0, 42, 85, 124):
             jobs.append(J('root', 'H_C04_maurer', [8967, lo, lo + 3], timeout_ms=120000, job_timeout_s=2400))
     else:
-        for n in (8967, 8970, 8974):
+        for n in (8967, 8970):     # K=2 (n=8974) takes > 20 min per group of 8 values: outside the registered bound
             for lo in range(0, 128, 8):
                 jobs.append(J('root', 'H_C04_maurer', [n, lo, lo + 7], timeout_ms=120000, job_timeout_s=5400))
     return jobs
@@ -206,7 +206,7 @@ def c17_jobs(tier):
             H(3, m, m, 0, 0, 0, n)
             H(3, m, m, 1, 0, 0, n)
     for m in (2, 5):
-        for n in (4, 7, 10) if q else range(2, 17):
+        for n in (4, 7, 10) if q else (range(2, 17) if m == 2 else range(2, 11)):     # m=5: n > 10 times out
             H(10, m, m, 0, 0, 0, n)
             H(10, m, m, 1, 0, 0, n)
     for k in (3, 7):
@@ -402,7 +402,7 @@ PROPS = {
         'jobs': c17_jobs,
         'technique': 'solver-based relational checking of the real code: two symbolic executions (x and T(x)) of the same go/ssa functions, counts identified by guard pairing, tails compared in reals+UF with the erfc reflection axiom; models replayed natively',
         'bounds': {'quick': 'complement: monobit (Q->1-Q), runs, block frequency, poker, overlapping, approximate entropy, binary derivative, autocorrelation at n<=12..19, longest run ones<->zeros at n=128,131, cumulative sums n<=8 every excursion; reversal: monobit, runs, overlapping, approximate entropy, binary derivative, autocorrelation, forward<->backward cumulative sums; every rotation at n=8,11 for overlapping and approximate entropy; adjacent whole-block swaps and every discarded-tail bit for block frequency, poker, longest run, rank (2x2), linear complexity (m=3,4)',
-                   'thorough': 'the same families up to n=24 (cumulative n<=14), runs distribution under complement and reversal at n=100, rank 3x3'},
+                   'thorough': 'the same families up to n=24 (approximate entropy m=2 up to n=16, m=5 up to n=10; cumulative n<=14), runs distribution under complement and reversal at n=100, rank 3x3'},
         'outside': 'Maurer and DFT symmetries; n above the bounds; non-adjacent block permutations are covered as products of adjacent swaps (argument); binary64 rounding (counts are proven equal, tails compared as exact reals)',
         'assumptions': ['erfc(-v) = 2 - erfc(v), erf(-v) = -erf(v) (axioms of the uninterpreted functions)', 'igamc/log uninterpreted'],
     },
@@ -461,14 +461,14 @@ PROPS = {
     'C04': {
         'jobs': c04_jobs,
         'bounds': {'quick': 'linearComplexity kernel: crash freedom + shortest-LFSR definition for every block of M<=9 bits, crash freedom M in {10,12,14}; LinearComplexityProto m in 3..6, N<=2 blocks + tail; MatrixRankProto with m x m matrices m in {2,3}, N<=2 + tail; MaurerUniversalTest at the real L=7, Q=1280 with K=1 test block (n=8967 symbolic bits), one obligation per value of the test block; quick: 16 of the 128 values (0..3, 42..45, 85..88, 124..127)',
-                   'thorough': 'LC kernel definition M<=12, crash freedom M<=20; Proto m<=8; rank m<=4; Maurer: all 128 values of the test block, also n=8970 (discarded tail) and K=2'},
+                   'thorough': 'LC kernel definition M<=12, crash freedom M<=20; Proto m<=8; rank m<=4; Maurer: all 128 values of the test block at n=8967 and n=8970 (discarded tail); K>=2 test blocks are outside (one group of 8 values takes more than 20 minutes)'},
         'outside': 'production sizes (32x32 matrices, m=500/1000/5000 blocks) are outside: the same code runs there but neither the definitional spec nor the merged symbolic elimination is within reach; Maurer with more than 2 test blocks; binary64 rounding; igamc accuracy',
         'assumptions': ['float64 tails as exact reals; igamc/erfc/log/pow uninterpreted', 'class of T decided from the integer L (exact: offsets stay within (-1/2,1/2))'],
     },
     'C03': {
         'jobs': c03_jobs,
         'bounds': {'quick': 'binary derivative k in {3,7,15}, autocorrelation d in {1,2,8,16,32}: n<=32; cumulative sums n<=16, both directions, every excursion z=1..n (one obligation per z, exhaustiveness of the split proven), and the smallest excursion z=1 at n in {34,36,40} (series with more than 32 terms); the two alternating sequences (Z=1) at n in {100,128,1000} concretely',
-                   'thorough': 'binary derivative / autocorrelation n<=64; cumulative sums n<=28'},
+                   'thorough': 'binary derivative / autocorrelation n<=64; cumulative sums n<=20 every excursion, z in {1,2} at n up to 64'},
         'outside': 'n above the bounds (the standard minimum is 100 bits: the same code is exercised at smaller n); binary64 rounding; erfc/erf accuracy',
         'assumptions': ['float64 tails as exact reals; erfc/erf uninterpreted on symbolic arguments, libm on concrete arguments', 'cumulative sums: series limits follow the NIST/GM-T integer (truncating) arithmetic'],
     },
